@@ -4,6 +4,7 @@ use serde_json::Value;
 
 pub mod alloc;
 pub mod codec;
+pub mod exotic;
 pub mod huffman;
 pub mod index;
 pub mod laws;
@@ -16,6 +17,7 @@ pub fn replay(property: &str, engine: &str, case: &Value) -> Result<(), String> 
         "stack" => stack::replay(property, case),
         "huffman" => huffman::replay(case),
         "codec" => codec::replay(case),
+        "exotic" => exotic::replay(case),
         "laws" => laws::replay(case),
         "order" => order::replay(case),
         "scan" => scan::replay_c04(),
